@@ -1,6 +1,22 @@
 """Per-property manifest metadata.  bin/mkmanifest renders MANIFEST.json from this."""
 
 CHECKS = {
+    "C09": dict(
+        text="spec/Bringup.tla states the negotiation contract from the NCP's EZSP layer (after each NCP reset: first frame is the legacy "
+             "3-byte version query for version 4; if the NCP is not version 4 the next frame is a version query in the NCP's native "
+             "layout for exactly its version; every later frame is in that layout) and which tables the host must adopt (own for 4..14, "
+             "newest above). BringupMC checks the host's negotiation logic (startup_reset incl. the socket start-up wait, version, "
+             "handler switch, reset falling back to v4) against it for versions 4..16 and 200. The real stack (EZSP over the real "
+             "uart.connect, Gateway and AshProtocol on a fake serial line, simulated ASH NCP carrying a simulated EZSP NCP) is run for 14 "
+             "NCP versions x serial / socket:// paths x start-up reset absent / in the wait window / late / with the host's RST still "
+             "unread x line-fault schedules x NCP windows 1..3 through startup_reset, write_config, a second reset, version and a "
+             "command; TLC validates the frames seen by the NCP's EZSP layer and every stage outcome (Trace_Bringup).",
+        design_ref="3/C09",
+        note="Trusted: simulated ASH NCP (validated against AshNcp.tla in C01) and EZSP NCP; faults hit DATA/ACK/NAK only (bellows does not "
+             "retransmit RST). One defect fixed (KeyError for version >= 15); one known finding listed in known_findings.json (start-up "
+             "reset announced while the host's RST is unread: frame number 0 used twice, bring-up times out).",
+        technique="TLA+ contract + host-logic model checked by TLC; full-stack runs of the implementation against simulated NCPs validated as traces by TLC",
+    ),
     "C11": dict(
         text="spec/Gateway.tla models bellows.uart.Gateway on top of AshHost.tla at event-loop-callback granularity (reset waiter and "
              "start-up waiter each none / pending / resolved-but-not-yet-resumed, callers joining a reset in progress, reset timeout, "
